@@ -174,3 +174,51 @@ Theorem bzip2_reader_recycled_storage_unobservable : forall s1 s2 ops,
 Proof. exact bz_recycled_storage_unobservable. Qed.
 Print Assumptions bzip2_reader_recycled_storage_unobservable.
 End BzLife.
+
+(* ---- xflate: Reset of a Writer / Reader (XFlate/WriterReset.v, ReaderReset.v, ResetThms.v; WXFRESET) ---- *)
+From V Require XFlate.Writer XFlate.Reader XFlate.WriterReset XFlate.ReaderReset XFlate.ResetThms.
+Module XFlateReset.
+Import Base.Prelude XFlate.Index XFlate.Writer XFlate.Reader XFlate.WriterReset XFlate.ReaderReset XFlate.ResetThms.
+
+(* xflate.Writer.Reset: for EVERY state holding the configuration of a Writer made by NewWriter(conf),
+   Reset gives the state of NewWriter(conf) on the new sink; all later calls (further Resets included)
+   return, count and write alike - whatever the external compressor does *)
+Theorem xflate_writer_reset_as_new : forall deflate (s : xw) lvl chunk idx pre0 s0 pre,
+  new_writer_go pre0 lvl chunk idx = inr s0 -> same_cfg s s0 ->
+  exists s1, new_writer_go pre lvl chunk idx = inr s1 /\ ws_reset (WLive s) pre = WLive s1 /\
+             w_equiv deflate (ws_reset (WLive s) pre) (WLive s1).
+Proof. exact xw_reset_as_new. Qed.
+Print Assumptions xflate_writer_reset_as_new.
+
+Theorem xflate_writer_histories_split_at_reset : forall deflate lvl chunk idx pre0 s0 hist pre ops,
+  new_writer_go pre0 lvl chunk idx = inr s0 ->
+  exists s1, new_writer_go pre lvl chunk idx = inr s1 /\
+    fst (ws_run deflate (WLive s0) (hist ++ WsReset pre :: ops)) =
+    fst (ws_run deflate (WLive s0) hist) ++ ((0, None), (0, 0, pre)) :: fst (ws_run deflate (WLive s1) ops).
+Proof. exact xw_reset_as_new_history. Qed.
+Print Assumptions xflate_writer_histories_split_at_reset.
+
+(* the regression "Writer.Reset keeps the back size of the previous stream's last index" *)
+Theorem xflate_writer_reset_keeping_backsize_refuted : ~ xw_reset_keepback_statement.
+Proof. exact xw_reset_keepback_refuted. Qed.
+Print Assumptions xflate_writer_reset_keeping_backsize_refuted.
+
+(* xflate.Reader.Reset: for EVERY state, Reset(src) and any later history = NewReader(src) and the same
+   history: errors, positions, bytes, and the log of accesses to the source after every call *)
+Theorem xflate_reader_reset_as_new : forall (st : xrS) src ops,
+  fst (rs_run st (RsReset src :: ops)) = fst (rs_run (RZero false) (RsReset src :: ops)).
+Proof. exact xr_reset_as_new. Qed.
+Print Assumptions xflate_reader_reset_as_new.
+
+(* the states themselves are equal when the new source opens ... *)
+Theorem xflate_reader_reset_state_when_open_succeeds : forall st src s,
+  open_reader src = inr s -> rs_reset st src = RLive s.
+Proof. exact xr_reset_success_state. Qed.
+Print Assumptions xflate_reader_reset_state_when_open_succeeds.
+
+(* ... and not in general: a failed open leaves the recycled decompressor with the offsets of the
+   abandoned chunk (unobservable: the latched error answers every call) *)
+Theorem xflate_reader_reset_equal_state_refuted : ~ xr_reset_equal_state_statement.
+Proof. exact xr_reset_equal_state_refuted. Qed.
+Print Assumptions xflate_reader_reset_equal_state_refuted.
+End XFlateReset.
